@@ -175,6 +175,9 @@ def build(node, env=None, path='r'):
         return done(ds.map(env.fn(path, progs.f_frag)))
     if op == 'batch_map':
         i = node['fn']
+        if node.get('workers'):
+            return done(ds.batch_map(env.fn(path, functools.partial(progs.f_wrap, i)), num_workers=node['workers'],
+                                     buffer_size=node['buffer'], backend='t'))
         return done(ds.batch_map(env.fn(path, functools.partial(progs.f_wrap, i))))
     if op == 'nonemap':
         return done(ds.map(env.fn(path, functools.partial(progs.f_none, node['m'], node['r']))))
@@ -232,8 +235,20 @@ def build(node, env=None, path='r'):
             return done(ds.prefetch(node['workers'], node['buffer']))
         cfe = True if spec is True else progs.exc_spec(spec)
         return done(ds.prefetch(node['workers'], node['buffer'], catch_filter_exception=cfe))
+    def make_rng():
+        # 'gen' = numpy Generator (default_rng), otherwise the legacy RandomState
+        return np.random.default_rng(node['seed']) if node.get('rng') == 'gen' else np.random.RandomState(node['seed'])
     if op == 'reshuffle':
-        return done(ds.shuffle(True, rng=np.random.RandomState(node['seed'])))
+        return done(ds.shuffle(True, rng=make_rng()))
     if op == 'local_shuffle':
-        return done(ds.shuffle(True, rng=np.random.RandomState(node['seed']), buffer_size=node['buffer']))
+        return done(ds.shuffle(True, rng=make_rng(), buffer_size=node['buffer']))
+    if op == 'apply':
+        # lazy apply: the function is applied to a frozen copy at every iteration
+        if node['fn'] == 'map':
+            f = env.fn(path, functools.partial(progs.f_wrap, 0))
+            return done(ds.apply(lambda d: d.map(f), lazy=True))
+        rng = make_rng()
+        if node['fn'] == 'shuffle':
+            return done(ds.apply(lambda d: d.shuffle(True, rng=rng), lazy=True))
+        return done(ds.apply(lambda d: d.shuffle(True, rng=rng, buffer_size=2), lazy=True))
     raise ValueError(op)
